@@ -29,7 +29,7 @@ def run(tier):
         if e.get("fatal"):
             ck.note_inconclusive(f"generated program died rc={e.get('rc')} after case {e.get('after')}")
             continue
-        if "conv" not in e:
+        if "conv" not in e or e["conv"] == "chk_inputs":
             continue
         ck.count()
         cid = int(re.match(r"c(\d+)", e["case"]).group(1))
